@@ -277,6 +277,34 @@ def build(ob, src):
                 dims.append(src.int(f"d{i}", 1 if ob["skind"] == "vector" else 0, 99999))
         ctor = {"tensor": TensorType, "memref": MemRefType, "vector": VectorType}[ob["skind"]]
         return ctor(i32, [IntAttr(d) for d in dims])
+    if k == "strided":
+        from xdsl.dialects.builtin import NoneAttr, StridedLayoutAttr
+
+        def int_or_dyn(tag, lo, hi):
+            return NoneAttr() if src.choose(tag + "_dyn", 2) else IntAttr(src.int(tag, lo, hi))
+
+        lay = StridedLayoutAttr(ArrayAttr([int_or_dyn(f"s{i}", -99, 9999) for i in range(n)]), int_or_dyn("off", -99, 99999))
+        return MemRefType(i32, [2] * n, lay) if ob.get("in_memref") else lay
+    if k == "shaped_extra":
+        from xdsl.dialects.builtin import BoolAttr, NoneAttr, UnrankedMemRefType, UnrankedTensorType
+
+        which = ob["which"]
+        if which == "vector_scalable":
+            flags = [bool(src.choose(f"sc{i}", 2)) for i in range(2)]
+            return VectorType(i32, [IntAttr(src.int("d0", 1, 999)), IntAttr(src.int("d1", 1, 999))], ArrayAttr([BoolAttr(f, i1) for f in flags]))
+        if which == "memref_space":
+            return MemRefType(i32, [IntAttr(src.int("d0", 0, 999))], NoneAttr(), mk_int_attr(src.int("ms", -(1 << 63), (1 << 63) - 1), i64))
+        if which == "tensor_encoding":
+            return TensorType(i32, [IntAttr(src.int("d0", 0, 999))], StringAttr(src.text("e", 1)))
+        if which == "unranked_tensor":
+            return UnrankedTensorType(IntegerType(IntAttr(src.int("w", 1, 4096))))
+        if which == "unranked_memref":
+            return UnrankedMemRefType.from_type(IntegerType(IntAttr(src.int("w", 1, 4096))))
+        if which == "complex":
+            from xdsl.dialects.builtin import ComplexType
+
+            return ComplexType(IntegerType(IntAttr(src.int("w", 1, 4096))))
+        raise AssertionError(which)
     if k == "functype":
         return FunctionType.from_lists([IntegerType(IntAttr(src.int("w0", 1, 4096))), IndexType()], [IntegerType(IntAttr(src.int("w1", 1, 4096)))] if src.choose("res", 2) else [])
     if k == "tupletype":
@@ -293,7 +321,7 @@ def h_sym(ob, concrete=None):
         src = Src(ex, concrete)
         a = build(ob, src)
         # known-finding flags (payload classes the text format cannot tell apart)
-        texts = {"str": lambda: [a.data], "loc": lambda: [a.filename.data], "array_attr": lambda: [a.data[1].data], "dictkey": lambda: [a.data["z"].data],
+        texts = {"str": lambda: [a.data], "loc": lambda: [a.filename.data], "array_attr": lambda: [a.data[1].data], "dictkey": lambda: [a.data["z"].data], "shaped_extra": lambda: [a.encoding.data] if ob.get("which") == "tensor_encoding" else [],
                  "symref": lambda: [a.root_reference.data] + [x.data for x in a.nested_references.data]}.get(ob["family"], lambda: [])()
         for s_ in texts:
             for c in (SymStr.lift(s_).cps if s_ != "" else ()):
@@ -391,6 +419,12 @@ def obligations(tier):
     for kind in ("tensor", "memref", "vector"):
         for n in ((1, 2) if kind != "tensor" else (0, 1, 2)):
             obs.append({"id": f"C06/shaped/{kind}/{n}", "kind": "sym", "family": "shaped", "skind": kind, "n": n, "weight": 3})
+    for n in (0, 1, 2):
+        obs.append({"id": f"C06/strided/{n}", "kind": "sym", "family": "strided", "n": n, "weight": 4})
+        if n:
+            obs.append({"id": f"C06/strided/{n}/memref", "kind": "sym", "family": "strided", "n": n, "in_memref": True, "weight": 4})
+    for which in ("vector_scalable", "memref_space", "tensor_encoding", "unranked_tensor", "unranked_memref", "complex"):
+        obs.append({"id": f"C06/shaped_extra/{which}", "kind": "sym", "family": "shaped_extra", "which": which, "weight": 3})
     obs.append({"id": "C06/functype", "kind": "sym", "family": "functype", "weight": 3})
     obs.append({"id": "C06/tupletype", "kind": "sym", "family": "tupletype", "weight": 3})
     for t in FLOAT_TYPES:
